@@ -242,6 +242,11 @@ EXTRA8 = {
     "C13": " Wave 8: list-shaped targets; the consumer's iteration accessors and per-child modified flags in retarget cycles.",
     "C17": " Wave 8: the push source may book a timer of its own in its start hook; pushes before that time must not make the loop forget it.",
 }
+EXTRA10 = {
+    "C03": " Wave 10: wiring-time passive tags also on inputs of the real static nodes.",
+    "C05": " Wave 10: duration windows - a push that prunes nothing leaves no removed value to read.",
+    "C09": " Wave 10: the application's own argument tagged passive(...) (known finding F33).",
+}
 EXTRA9 = {
     "C02": " Wave 9: children of map_ over a dynamic list among the dynamic children.",
     "C11": " Wave 9: the library operator passed directly as the function value (lifted-kernel path), also mul_.",
@@ -252,6 +257,8 @@ EXTRA9 = {
 for _k, _v in EXTRA.items():
     CLAIMED[_k]["text"] += _v
 for _k, _v in EXTRA9.items():
+    CLAIMED[_k]["text"] += _v
+for _k, _v in EXTRA10.items():
     CLAIMED[_k]["text"] += _v
 for _k, _v in EXTRA8.items():
     CLAIMED[_k]["text"] += _v
